@@ -33,4 +33,5 @@ VARIANTS = [
     V("N-format-conditional-expression", "src/soundevent/io/loader.py", "    if format is None:\n        format = infer_format(path)", "    format = infer_format(path) if format is None else format", None),
     V("containment-test-crossed", A + "recording.py", 'if ".." in Path(os.path.normpath(path)).parts:', 'if ".." not in Path(os.path.normpath(path)).parts:', "R18.4"),
     V("object-and-path-crossed-on-the-way-to-the-saver", "src/soundevent/io/saver.py", "return saver(obj, path, audio_dir, **kwargs)", "return saver(path, obj, audio_dir, **kwargs)", "R18.1"),
+    V("save-skipped-without-audio-dir(G.12)", "src/soundevent/io/aoef/__init__.py", "    aoef_object = to_aeof(obj, audio_dir=audio_dir)", "    if audio_dir is None and path.exists():\n        return\n\n    aoef_object = to_aeof(obj, audio_dir=audio_dir)", "G.12"),
 ]
